@@ -16,7 +16,10 @@ CFG = dict(
               "sent wherever none of those rules forbids it (unexpected-suppress)",
               "eBGP: confed segments removed, local AS / confederation id prepended exactly once (hop-list equality, also "
               "onto a full 255-AS segment), LOCAL_PREF/ORIGINATOR_ID/CLUSTER_LIST/AIGP/received MED removed, next hop self",
-              "iBGP: LOCAL_PREF present (value kept), AS_PATH untouched, stored next hop of peer-learned routes untouched",
+              "iBGP: LOCAL_PREF present (value kept), AS_PATH untouched, stored next hop of peer-learned routes untouched "
+              "(the FULL next hop: V4 / V6 / V6LinkLocal incl. its link-local half, also IPv4 NLRI with IPv6 next hop)",
+              "eBGP next hop self = local address; on an IPv6 session with link_addr the global + link-local form "
+              "(RFC 2545 s.3), without link_addr the global address alone (no foreign link-local half survives)",
               "reflected routes: ORIGINATOR_ID (= source router-id if absent, else kept) and cluster-id prepended to CLUSTER_LIST; "
               "non-reflected routes gain neither",
               "confed-eBGP: member AS prepended in an AS_CONFED_SEQUENCE, LOCAL_PREF kept",
@@ -38,6 +41,10 @@ CFG = dict(
                  "next hop towards iBGP of locally-originated / next-hop-less routes, and towards eBGP of a locally injected "
                  "route with an explicit next hop (GoBGP-compatible third-party next hop): not judged",
                  "LLGR-stale routes towards peers without LLGR capability: not judged (statement silent)",
+                 "PeerExportContext.link_addr = Some is read as 'the peer shares the link' (RFC 2545 s.3 condition)",
+                 "link-local half under set-next-hop address/self/peer-address policy actions, and link-local next hops "
+                 "towards RS-client / confed-eBGP receivers: counted, not judged (the wire part still checks they are "
+                 "carried exactly as handed to the sink)",
                  "the AS-loop drop itself sits in the socket read loop; only the is_as_loop predicate is judged",
                  "E2 runs the debug profile only (overflow checks on)"],
     floor=dict(evaluations=20000, nontrivial=15000,
@@ -46,7 +53,7 @@ CFG = dict(
                          "clause:suppress:echo": 5000, "clause:suppress:rs-boundary": 2000,
                          "clause:suppress:split-horizon": 300, "clause:send": 6000,
                          "clause:reflect": 600, "clause:prepend-to-full255": 300, "clause:strip-confed": 800,
-                         "clause:opaque": 3000, "clause:llgr": 2000, "clause:nexthop-self": 1000,
+                         "clause:opaque": 3000, "clause:llgr": 2000, "clause:nexthop-self": 2000,
                          "clause:nexthop-untouched": 1000, "clause:policy-nexthop": 1500,
                          "rewrite:Ebgp": 1800, "rewrite:Ibgp": 1000, "rewrite:IbgpRrClient": 1500,
                          "rewrite:ConfedEbgp": 1800, "rewrite:RsClient": 300,
@@ -62,7 +69,20 @@ CFG = dict(
                          "wire:pending:withdrawals": 400, "wire:pending:drains": 200,
                          "wire:add-path": 60, "wire:plain": 60,
                          "wire:receiver:Ibgp": 30, "wire:receiver:IbgpRrClient": 30, "wire:receiver:RsClient": 30,
-                         "wire:receiver:Ebgp": 15, "wire:receiver:ConfedEbgp": 10}),
+                         "wire:receiver:Ebgp": 15, "wire:receiver:ConfedEbgp": 10,
+                         # next-hop kinds: V4 / V6 / V6LinkLocal(global, link-local), IPv6 and IPv4-over-IPv6 sessions,
+                         # receivers with and without link_addr
+                         "nh-kind:v4": 12000, "nh-kind:v6": 3000, "nh-kind:v6-linklocal": 5500,
+                         "nh-kind:v4-family-v6-nexthop": 3000, "nh-kind:v4-family-v6-linklocal-nexthop": 5500,
+                         "nh-kind:none-v4-session": 3000, "nh-kind:none-v6-session": 3000,
+                         "receiver-with-link-addr": 10000,
+                         "clause:nexthop-self-global+link-local": 600, "clause:nexthop-self-v6-global-only": 600,
+                         "clause:nexthop-self-over-stored-link-local": 700, "clause:nexthop-untouched-link-local": 800,
+                         "clause:policy-unchanged-link-local": 250, "clause:extended-nexthop-v4-family": 3000,
+                         "wire:session:ipv4": 20, "wire:session:ipv6": 30, "wire:session:ipv4-over-ipv6-nexthop": 20,
+                         "wire:receiver-with-link-addr": 25, "wire:handed-link-local-nexthops": 2800,
+                         "wire:link-local-nexthop-judged": 1500,
+                         "wire:equal-attrs-equal-global-different-link-local": 340}),
     # every shard runs all 360 cells (covering set + random vectors from its own seed)
     quick=[e2("all", "event::verif::c09::run", 1, 120)],
     thorough=[e2("all", "event::verif::c09::run", 8, 200, random_per_cell=4000)],
